@@ -554,6 +554,12 @@ def monitors(scn, trace):
                         all(p == 0 or p in succeeded_at_stage for p in par[i]):
                     bad("C03", "unthrottled-immediate",
                         "op %d: step %d has all parents complete but was not submitted (no throttle)" % (k, i))
+        if is_poll and o.ret.startswith("RAISE") and (dry or code != "ERROR"):
+            # a pass of the loop that raises although the status query did not fail: the conductor dies there
+            bad("C17" if dry else "C05", "all-generated" if dry else "terminates",
+                "op %d: execute_ready_steps raised (%s) %s" % (
+                    k, o.ret, "in a dry run: the steps not yet reached are never generated" if dry else
+                    "although the status query answered %s: no verdict is ever returned" % code))
         # C20
         if is_poll and not dry and prev is not None:
             if code == "ERROR":
